@@ -438,6 +438,10 @@ class ProvRecord(object):
                     )
                     value = self._bundle.valid_qualified_name(qname)
                 elif attr in PROV_ATTRIBUTE_LITERALS:
+                    if isinstance(original_value, Literal):
+                        # a typed spelling of the time (e.g. xsi:type="xsd:dateTime"
+                        # in PROV-XML): its lexical form is what is parsed
+                        original_value = original_value.value
                     value = (
                         original_value
                         if isinstance(original_value, datetime.datetime)
